@@ -17,6 +17,8 @@
 (*   Reread                    the object is replaced by pack.ToPack of    *)
 (*                             the bytes just written (kinds whose reader  *)
 (*                             restores the content as it is)              *)
+(*   ReadInto p bytes [hash]   object.Read over the message another pack of  *)
+(*                             the kind (content p) was written to          *)
 (* The pool maps of a counter pack are hash tables: compared as a bag.     *)
 (***************************************************************************)
 EXTENDS PackObj, TraceLib
@@ -66,14 +68,23 @@ TraceWrite == /\ Step("Write")
                      /\ UNCHANGED lib
                      /\ HashSeen(e)
 
-RereadKinds == {"tagcount", "logsink", "text", "param", "zip"}
 TraceReread == /\ Step("Reread")
                /\ cur # <<>> /\ out # <<>> /\ cur.kind \in RereadKinds
                /\ UNCHANGED ovars
 
+\* ReadInto p bytes [hash]: object.Read over the message `bytes` that another, freshly built
+\* pack of the same kind (content p, as with New) was written to
+TraceReadInto == /\ Step("ReadInto")
+                 /\ cur # <<>>
+                 /\ LET e == Trace[l] IN
+                      /\ IF e.bytes = PackBytes(cur.kind, e.p) THEN TRUE
+                         ELSE PrintT(<<"line", l, "ReadInto", cur.kind, "reference bytes of the other pack", PackBytes(cur.kind, e.p)>>) /\ FALSE
+                      /\ ReadInto(cur.kind, e.p, e.bytes)
+                      /\ HashSeen(e)
+
 InvAll == HashOwned
 
-TraceNext == (TraceReset \/ TraceNew \/ TraceMut \/ TraceWrite \/ TraceReread) /\ InvAll'
+TraceNext == (TraceReset \/ TraceNew \/ TraceMut \/ TraceWrite \/ TraceReread \/ TraceReadInto) /\ InvAll'
 
 TraceSpec == TraceInit /\ [][TraceNext]_tvars
 
